@@ -8,8 +8,9 @@ one Retrieve's share hash tree (seeded with the root of the given family, or uns
 of shares; root = fam:<f> | junk | none.
 Shares of a servermap: <shnum>:<server>:<seq>:<root>:<pre>:<offs>:<g|b> (sorted by share number).
 `vm <k> share…` → `<best verinfo | ->  | <recoverable verinfos, sorted>` (ServerMap.best_recoverable_version);
-`rl <t|f> <k> share…` → `ok:<shnums used>` | `fail` (the Retrieve loop; t = a bad share drops its server, as the code does);
-`rd <t|f> <k> share… / share…` → `<verinfo>` | `fail` (download_best_version: first survey / complete map). -/
+`rl <t|f> <k> share…` → `ok:<shnums used>` | `fail` (the Retrieve loop; t = a bad share drops its server, as the code did before /repo 280b4a6);
+`rd <t|f> <k> share… / share…` → `<verinfo>` | `fail` (download_best_version: first survey / complete map).
+`ot <c|i> <field>:<offset>…` → the offsets tuple inside verinfo (c = canonical/sorted, i = insertion order). -/
 open Tahoe.Drv Tahoe.Authentic
 
 def parseField : String → Option Field
@@ -64,6 +65,15 @@ def handle : List String → String
       | .ok used => s!"ok:{if used.isEmpty then "-" else showNatList used}"
       | .fail => "fail"
     | _, _, _ => "bad-op"
+  | "ot" :: c :: entries =>
+    let parse (t : String) : Option (Nat × Nat) := match t.splitOn ":" with
+      | [a, b] => do pure (← a.toNat?, ← b.toNat?)
+      | _ => none
+    match (if c == "c" then some true else if c == "i" then some false else none), entries.mapM parse with
+    | some canon, some d =>
+      let out := Tahoe.RetrSel.offsetsTuple canon d
+      if out.isEmpty then "-" else " ".intercalate (out.map (fun p => s!"{p.1}:{p.2}"))
+    | _, _ => "bad-op"
   | "rd" :: v :: k :: rest =>
     let first := rest.takeWhile (· != "/")
     let full := (rest.dropWhile (· != "/")).drop 1
